@@ -465,4 +465,31 @@ theorem flatMap_blocks_flatten (ms : List Msg) :
   | nil => simp
   | cons m ms ih => simp [(blocks_shape m.data).1, List.flatten_append, ih]
 
+/-- all bytes written by a run of `Tx.step`s that start with cipher `k` installed and contain
+    no further key-carrying response -/
+def sessionBytes (K : Nat → Aead) (k : Nat) : Nat → List Msg → Bytes
+  | _, [] => []
+  | c, m :: ms => (encrypt (K k) c m.data).1 ++ sessionBytes K k (encrypt (K k) c m.data).2 ms
+
+theorem sessionBytes_eq (K : Nat → Aead) (k : Nat) (c : Nat) (ms : List Msg) :
+    sessionBytes K k c ms = wires (K k) c (ms.flatMap fun m => blocks m.data) := by
+  induction ms generalizing c with
+  | nil => simp [sessionBytes, wires]
+  | cons m ms ih =>
+    simp only [sessionBytes, encrypt, List.flatMap_cons, wires_append, ih]
+
+theorem run_plain_aux (K : Nat → Aead) (ms : List Msg) (t : Tx) (j : Nat) (hj : j < ms.length) :
+    ((Tx.run K t ms)[j]'(by rw [run_length]; exact hj)).isPlain
+      = (t.key.isNone && (ms.take j).all (fun m => !m.carriesKey)) := by
+  induction ms generalizing t j with
+  | nil => simp at hj
+  | cons m ms ih =>
+    cases j with
+    | zero =>
+      simp only [Tx.run, List.getElem_cons_zero, List.take_zero, List.all_nil, Bool.and_true]
+      exact write_isPlain K t m.data
+    | succ j =>
+      simp only [Tx.run, List.getElem_cons_succ, List.take_succ_cons, List.all_cons]
+      rw [ih _ j (by simpa using hj), step_key_isNone, Bool.and_assoc]
+
 end Hap.Frame
